@@ -582,3 +582,141 @@ theorem turnSpecV1_trace (cfg : Cfg) (h : HistV1) (t : Turn) :
     | escape => simp [stopResV1]
 
 end NemoVerif.Pipeline
+
+namespace NemoVerif.Pipeline
+
+/-! ## Colang 1.0: utterances, exceptions, reply -/
+
+theorem mem_utters : ∀ (tr : List Step) (x : Text), x ∈ utters tr ↔ Step.utter x ∈ tr
+  | [], x => by simp [utters]
+  | s :: tr, x => by
+    cases s <;> simp [utters, mem_utters tr x]
+
+theorem utter_mem_stopStepsV1 (cfg : Cfg) (rf : Bool) (k : Kind) (w : Option Verdict) (x : Text)
+    (h : Step.utter x ∈ stopStepsV1 cfg rf k w) : x = refusal ∨ x = internalError := by
+  cases w with
+  | none => simp [stopStepsV1] at h
+  | some v =>
+    cases v <;> simp [stopStepsV1] at h
+    · split at h
+      · simp at h
+      · split at h <;> simp at h <;> simp [h]
+    · simp [h]
+
+theorem utter_mem_outTailV1 (cfg : Cfg) (rf : Bool) (final : Text) (w : Option Verdict) (x : Text)
+    (h : Step.utter x ∈ (outTailV1 cfg rf final w).1) : x = refusal ∨ x = internalError ∨ (w = none ∧ x = final) := by
+  cases w with
+  | none => simp [outTailV1] at h; simp [h]
+  | some v =>
+    cases v <;> simp [outTailV1] at h
+    · split at h
+      · simp at h
+      · split at h <;> simp at h <;> simp [h]
+    · simp [h]
+
+theorem utter_mem_inputTraceV1 (cfg : Cfg) (t : Turn) (x : Text) (h : Step.utter x ∈ inputTraceV1 cfg t) :
+    x = refusal ∨ x = internalError := by
+  rcases List.mem_append.mp h with h1 | h1
+  · simp [railSteps] at h1
+  · exact utter_mem_stopStepsV1 _ _ _ _ x h1
+
+theorem railCalls_output_afterInputV1 (cfg : Cfg) (t : Turn) (um : Text) :
+    railCalls .output (afterInputV1 cfg t um).1 = (if genFaultV1 cfg t then [] else gate t.vout cfg.outRails t.bot) := by
+  unfold afterInputV1
+  split
+  · exact railCalls_genFaultStepsV1 t um .output
+  · simp [railCalls_genPrefixV1, railCalls_outTailV1]
+
+theorem utter_mem_afterInputV1 (cfg : Cfg) (t : Turn) (um : Text) (x : Text) (h : Step.utter x ∈ (afterInputV1 cfg t um).1) :
+    x = refusal ∨ x = internalError ∨
+      (genFaultV1 cfg t = false ∧ gateStop t.vout cfg.outRails t.bot = none ∧ x = gateText t.vout cfg.outRails t.bot) := by
+  unfold afterInputV1 at h
+  by_cases hf : genFaultV1 cfg t = true
+  · simp only [hf, if_true] at h
+    have := (mem_utters _ x).mpr h
+    rw [utters_genFaultStepsV1] at this
+    simp at this
+    simp [this]
+  · have hf' : genFaultV1 cfg t = false := by simpa using hf
+    simp only [hf', Bool.false_eq_true, if_false, List.mem_append] at h
+    rcases h with h | h | h
+    · have := (mem_utters _ x).mpr h
+      rw [utters_genPrefixV1] at this
+      simp at this
+    · simp [railSteps] at h
+    · rcases utter_mem_outTailV1 _ _ _ _ x h with h1 | h1 | ⟨h1, h2⟩
+      · exact Or.inl h1
+      · exact Or.inr (Or.inl h1)
+      · exact Or.inr (Or.inr ⟨hf', h1, h2⟩)
+
+/-- the texts of a reply are uttered in the turn -/
+theorem replyV1_texts_sub (tr : List Step) (raised : Bool) : ∀ x ∈ (replyV1 tr raised).texts, Step.utter x ∈ tr := by
+  intro x hx
+  unfold replyV1 at hx
+  split at hx
+  · simp at hx
+  · split at hx
+    · simp at hx
+    · exact (mem_utters tr x).mp hx
+
+theorem turnSpecV1_reply (cfg : Cfg) (h : HistV1) (t : Turn) :
+    ∃ raised, (turnSpecV1 cfg h t).2.1 = replyV1 (turnSpecV1 cfg h t).1 raised := by
+  unfold turnSpecV1
+  split
+  · exact ⟨_, rfl⟩
+  · exact ⟨false, rfl⟩
+  · exact ⟨false, rfl⟩
+  · exact ⟨true, rfl⟩
+
+theorem utters_stopStepsV1_none_or (cfg : Cfg) (rf : Bool) (k : Kind) : utters (stopStepsV1 cfg rf k none) = [] := by
+  simp [stopStepsV1, utters]
+
+theorem excs_genFaultOrPrefix (cfg : Cfg) (t : Turn) (um : Text) :
+    excs (afterInputV1 cfg t um).1 = excs (outTailV1 cfg t.retrFault (gateText t.vout cfg.outRails t.bot) (gateStop t.vout cfg.outRails t.bot)).1
+    ∨ excs (afterInputV1 cfg t um).1 = [] := by
+  unfold afterInputV1
+  split
+  · right; exact excs_genFaultStepsV1 t um
+  · left; simp [excs_genPrefixV1]
+
+end NemoVerif.Pipeline
+
+namespace NemoVerif.Pipeline
+
+/-! ## Dispatch: containment of action failures (C03) -/
+
+theorem execute_contains {α : Type} (o : Option (Dispatch.Outcome α)) (h : o ≠ some .llmRaise) :
+    ∃ r, Dispatch.execute o = .ok r := by
+  cases o with
+  | none => exact ⟨_, rfl⟩
+  | some oc =>
+    cases oc with
+    | ret v => exact ⟨_, rfl⟩
+    | raise => exact ⟨_, rfl⟩
+    | llmRaise => exact absurd rfl h
+
+theorem execute_raise_failed {α : Type} : Dispatch.execute (some (Dispatch.Outcome.raise : Dispatch.Outcome α)) = .ok (none, .failed) := rfl
+
+theorem run_raise_internalError {α : Type} : Dispatch.run (some (Dispatch.Outcome.raise : Dispatch.Outcome α)) = .ok .internalError := rfl
+
+theorem verdictOf_run_escape (o : Option (Dispatch.Outcome RailRet)) :
+    verdictOf (Dispatch.run o) = .escape ↔ o = some .llmRaise := by
+  cases o with
+  | none => simp [Dispatch.run, Dispatch.execute, Dispatch.runtimeResult, verdictOf, Except.map]
+  | some oc =>
+    cases oc with
+    | ret v =>
+      simp [Dispatch.run, Dispatch.execute, Dispatch.runtimeResult, verdictOf, Except.map]
+      split <;> (try split) <;> simp
+    | raise => simp [Dispatch.run, Dispatch.execute, Dispatch.runtimeResult, verdictOf, Except.map]
+    | llmRaise => simp [Dispatch.run, Dispatch.execute, verdictOf, Except.map]
+
+theorem verdictOf_run_raise : verdictOf (Dispatch.run (some (Dispatch.Outcome.raise : Dispatch.Outcome RailRet))) = .fault := rfl
+
+/-- a stopping verdict that is neither a rejection nor a fault is the forwarded LLM exception -/
+theorem gateStop_escape (v : Nat → Text → Verdict) (rails : List Nat) (t : Text) (w : Verdict)
+    (h : gateStop v rails t = some w) (hr : w ≠ .reject) (hf : w ≠ .fault) : w = .escape := by
+  obtain ⟨_, _, _, _, hw⟩ := gate_stop_last v rails t w h
+  cases w <;> simp_all [Verdict.continues]
+
+end NemoVerif.Pipeline
